@@ -180,9 +180,10 @@ prop("C14", lambda tier: [e1("c14", "harness/c14_once.c")],
 prop("C12", lambda tier: [e1("c12", "harness/c13_reap.c", harness_flags="-DPROP_C12")],
      "18 create/join/detach/try-join/timed-join programs with late joins after intervening creations and mixed stack sizes (default, 4K, 8K, 12K, 64K) "
      "x all schedules with <= K deviations on 1-3 workers; the ownership ledger behind the ALLOC/FREE hooks judges every hand-out and release")
-prop("C13", lambda tier: [e1("c13", "harness/c13_reap.c")],
+prop("C13", lambda tier: [e1("c13", "harness/c13_reap.c"), e1wrap("c13p", "harness/c13_pthread.c", "ld")] + ([e1wrap("c13pdl", "harness/c13_pthread.c", "dl")] if tier == "thorough" else []),
      "all histories of <=2 (quick) / <=3 (thorough) create/reap cycles over reap modes {join, try-join loop, timed-join, detach, created detached by attribute} x body {returns, yields} "
-     "+ detach-after-finish / racing programs, x all schedules with <= K deviations; ledger quiescence + no fresh allocation after the first cycle on one worker")
+     "+ detach-after-finish / racing programs, x all schedules with <= K deviations; ledger quiescence + no fresh allocation after the first cycle on one worker; "
+     "c13p: the same through the pthread interface (wrapping build): histories over {attribute object with PTHREAD_CREATE_DETACHED, attribute object joinable + join, NULL attributes + join, pthread_detach} x body")
 
 prop("C03", lambda tier: [e1("c03", "harness/c03_context.c")] + ([e1("c03o2", "harness/c03_context.c", libflags="-O2 -g")] if tier == "thorough" else []),
      "2-3 probe threads (one entered through the parent-first path) each performing a sequence over {yield, child-first create+join, parent-first create+join, contended mutex, "
